@@ -53,7 +53,9 @@ func hashOf(text string) string {
 
 type LV struct {
 	Ls   []string `json:"ls"`
-	Ty   string   `json:"ty"` // int | float
+	Ty   string   `json:"ty"` // int | float | hist (I = count, Sum = sum of the integer observations)
+	Sum  int64    `json:"sum,omitempty"`
+	Str  string   `json:"str,omitempty"` // ty string
 	I    int64    `json:"i,omitempty"`
 	Bits uint64   `json:"bits,omitempty"`
 	T    int      `json:"t"`   // 0 = zero time, k = stamped during step k
@@ -185,6 +187,10 @@ func (rt *RT) Scrape() (map[string][]string, error) {
 				ls = append(ls, lp.GetName()+"="+strconv.Quote(lp.GetValue()))
 			}
 			sort.Strings(ls)
+			if hg := m.GetHistogram(); hg != nil {
+				out[prog] = append(out[prog], fmt.Sprintf("%s{%s} hist:%d:%v", mf.GetName(), strings.Join(ls, ","), hg.GetSampleCount(), hg.GetSampleSum()))
+				continue
+			}
 			out[prog] = append(out[prog], fmt.Sprintf("%s{%s} %v", mf.GetName(), strings.Join(ls, ","), sampleValue(m)))
 		}
 	}
@@ -327,6 +333,12 @@ func (rt *RT) lvs(m *metrics.Metric) []LV {
 			x.T = rt.class(d.Time)
 		case *datum.Float:
 			x.Ty, x.Bits = "float", d.Valuebits
+			x.T = rt.class(d.Time)
+		case *datum.String:
+			x.Ty, x.Str = "string", d.Get()
+			x.T = rt.class(d.Time)
+		case *datum.Buckets:
+			x.Ty, x.I, x.Sum = "hist", int64(d.GetCount()), int64(d.GetSum())
 			x.T = rt.class(d.Time)
 		default:
 			x.Ty = "other"
@@ -514,7 +526,14 @@ func coqDval(ty string, i int64, bits uint64) string {
 func coqLVs(l []LV) string {
 	xs := make([]string, len(l))
 	for i, x := range l {
-		xs[i] = vlib.App("mkolv", T(x.Ls), coqDval(x.Ty, x.I, x.Bits), vlib.Z(int64(x.T)), vlib.Z(x.Exp))
+		dv := coqDval(x.Ty, x.I, x.Bits)
+		if x.Ty == "hist" {
+			dv = vlib.App("DHist", strconv.FormatInt(x.I, 10), vlib.Z(x.Sum))
+		}
+		if x.Ty == "string" {
+			dv = vlib.App("DStr", B(x.Str))
+		}
+		xs[i] = vlib.App("mkolv", T(x.Ls), dv, vlib.Z(int64(x.T)), vlib.Z(x.Exp))
 	}
 	return vlib.List(xs)
 }
@@ -568,6 +587,10 @@ func CoqEffect(e Effect) string {
 		return vlib.App("EDel", m, T(e.Ls))
 	case "expire":
 		return vlib.App("EExpire", m, T(e.Ls), vlib.Z(e.Dur))
+	case "obs":
+		return vlib.App("EObs", m, T(e.Ls), vlib.Z(e.Val))
+	case "sets":
+		return vlib.App("ESet", m, T(e.Ls), vlib.App("DStr", B(e.Str)))
 	case "fail":
 		return "EFail"
 	}
